@@ -259,6 +259,7 @@ impl Property for C04 {
             sc.read_plan.truncate(400);
         }
         add_neutral_xargs_opts(rng, &mut sc.opts);
+        add_ambient_xargs(rng, &mut sc);
         if tight {
             // -t prints every command with its (padded, 120 KiB) environment: seconds per run
             sc.opts.retain(|o| !matches!(o, Opt::Verbose));
